@@ -7,8 +7,8 @@ mod methods {
     use crate::{CelError, CelResult, CelValue};
     use chrono::{DateTime, TimeZone, Utc};
 
-    fn timestamp() -> DateTime<Utc> {
-        Utc::now()
+    fn timestamp() -> CelResult<DateTime<Utc>> {
+        crate::utils::clock::now()
     }
 
     fn timestamp(arg: String) -> CelResult<DateTime<Utc>> {
